@@ -908,4 +908,108 @@ theorem crash_of_sim {ρ : Type} {k j : Nat} {dst : ρ → Dest} {ok : ρ → Bo
     · rw [← hcl, hc2, crashOps_mid, ← hF', hF]
     · rw [hc2] at h; simp only [List.length_append, List.length_cons] at h; omega
 
+/-! ### the entry points with the validators in front (what the driver runs) -/
+
+/-- the crash-prefix statement for a destination pair and a result flag (the conclusion of `crash_of_sim`) -/
+def CrashPrefix (k j : Nat) (d₀ dF dH : Dest) (okF : Bool) (same : Prop) : Prop :=
+  ∃ ops, dH = d₀.run ops ∧ dF = d₀.run (crashOps (k - d₀.log.length) j ops) ∧
+    (k - d₀.log.length < ops.length → okF = false) ∧ (ops.length ≤ k - d₀.log.length → same)
+
+theorem CrashPrefix.trivial {k j : Nat} {d₀ : Dest} {okF : Bool} {same : Prop} (h : same) : CrashPrefix k j d₀ d₀ d₀ okF same :=
+  ⟨[], rfl, by simp [crashOps, Dest.run], fun h0 => by simp at h0, fun _ => h⟩
+
+theorem encodeV_crash {σ : Type} (V : MsgValidator σ) (k j : Nat) (o : Opts) (e : Enc) (f : FitIn) (hk : e.w.d.log.length ≤ k) :
+    CrashPrefix k j e.w.d (encodeV V (single k j) o e f).1.w.d (encodeV V noFault o e f).1.w.d
+      (decide ((encodeV V (single k j) o e f).2 = .ok)) (encodeV V (single k j) o e f = encodeV V noFault o e f) := by
+  unfold encodeV
+  by_cases h1 : f.msgs.isEmpty = true
+  · simp only [h1, if_true]; exact CrashPrefix.trivial trivial
+  · simp only [h1, Bool.false_eq_true, if_false]
+    by_cases h2 : (!f.msgs.all (protoOK f.hdr.protoVer)) = true
+    · simp only [h2, if_true]; exact CrashPrefix.trivial trivial
+    · simp only [h2, Bool.false_eq_true, if_false]
+      cases hv : validateAll V V.init f.msgs with
+      | none => exact CrashPrefix.trivial rfl
+      | some ms' =>
+        simp only
+        obtain ⟨ops, a1, a2, a3, a4⟩ := crash_of_sim (dst := fun r : Enc × Bool => r.1.w.d) (ok := fun r => r.2) e.w.d hk
+          (encode_sim k j o e { f with msgs := ms' } hk) (encode_ext _ o e _) (encode_ext _ o e _)
+        refine ⟨ops, a1, a2, fun h => ?_, fun h => ?_⟩
+        · have := a3 h; simp [this]
+        · rw [a4 h]
+
+/-- `WriteMessage` after the header: the two validators, then `encodeMessage` -/
+def wmvTail {σ : Type} (V : MsgValidator σ) (F : Faults) (o : Opts) (h : Hdr) (vs : σ) (m : WMsg) (r : Stream × Bool) : Stream × σ × Res :=
+  if !r.2 then (r.1, vs, .err)
+  else if !protoOK h.protoVer m then (r.1, vs, .ep)
+  else
+    match V.step vs m with
+    | (vs', none) => (r.1, vs', .ev)
+    | (vs', some m') => (({ r.1 with e := (encodeMessage F o r.1.e m').1 } : Stream), vs', if (encodeMessage F o r.1.e m').2 then .ok else .err)
+
+theorem writeMessageV_def {σ : Type} (V : MsgValidator σ) (F : Faults) (o : Opts) (h : Hdr) (s : Stream) (vs : σ) (m : WMsg) :
+    s.writeMessageV V F o h vs m = wmvTail V F o h vs m (s.ensureHeader F h) := rfl
+
+abbrev lSV {σ : Type} : Stream × σ × Res → List DOp := fun r => r.1.e.w.d.log
+abbrev oSV {σ : Type} : Stream × σ × Res → Bool := fun r => decide (r.2.2 = .ok)
+
+theorem wmvTail_ext {σ : Type} (V : MsgValidator σ) (F : Faults) (o : Opts) (h : Hdr) (vs : σ) (m : WMsg) (r : Stream × Bool) :
+    Ext r.1.e.w.d (wmvTail V F o h vs m r).1.e.w.d := by
+  unfold wmvTail
+  split
+  · exact Ext.refl _
+  · split
+    · exact Ext.refl _
+    · split
+      · exact Ext.refl _
+      · exact encodeMessage_ext F o r.1.e _
+
+theorem wmvTail_sim {σ : Type} (V : MsgValidator σ) (k j : Nat) (o : Opts) (h : Hdr) (vs : σ) (m : WMsg) (r : Stream × Bool)
+    (hk : r.1.e.w.d.log.length ≤ k) :
+    Sim k j lSV oSV (wmvTail V (single k j) o h vs m r) (wmvTail V noFault o h vs m r) := by
+  unfold wmvTail
+  by_cases h1 : (!r.2) = true
+  · rw [if_pos h1, if_pos h1]; exact Sim.same (log := lSV) (ok := oSV) _ hk
+  · rw [if_neg h1, if_neg h1]
+    by_cases h2 : (!protoOK h.protoVer m) = true
+    · rw [if_pos h2, if_pos h2]; exact Sim.same (log := lSV) (ok := oSV) _ hk
+    · rw [if_neg h2, if_neg h2]
+      rcases hstep : V.step vs m with ⟨vs', om⟩
+      cases om with
+      | none => exact Sim.same (log := lSV) (ok := oSV) _ hk
+      | some m' =>
+        exact Sim.map (lτ := lSV) (oτ := oSV)
+          (fun r2 : Enc × Bool => (({ r.1 with e := r2.1 } : Stream), vs', if r2.2 then Res.ok else Res.err))
+          (encodeMessage_sim k j o r.1.e m' hk) (fun _ => rfl) (fun r2 h2 => by simp [h2])
+
+theorem writeMessageV_ext {σ : Type} (V : MsgValidator σ) (F : Faults) (o : Opts) (h : Hdr) (s : Stream) (vs : σ) (m : WMsg) :
+    Ext s.e.w.d (s.writeMessageV V F o h vs m).1.e.w.d := by
+  rw [writeMessageV_def]; exact (ensureHeader_ext F h s).trans (wmvTail_ext V F o h vs m _)
+
+theorem writeMessageV_sim {σ : Type} (V : MsgValidator σ) (k j : Nat) (o : Opts) (h : Hdr) (s : Stream) (vs : σ) (m : WMsg)
+    (hk : s.e.w.d.log.length ≤ k) :
+    Sim k j lSV oSV (s.writeMessageV V (single k j) o h vs m) (s.writeMessageV V noFault o h vs m) := by
+  rw [writeMessageV_def, writeMessageV_def]
+  exact Sim.bind (lτ := lSV) (oτ := oSV) (wmvTail V (single k j) o h vs m) (wmvTail V noFault o h vs m) (ensureHeader_sim k j h s hk)
+    (fun r hr => wmvTail_sim V k j o h vs m r hr)
+    (fun r hr => by unfold wmvTail; simp [hr])
+    (fun r => (wmvTail_ext V _ o h vs m r).log)
+
+/-- `SequenceCompleted` with the validator state is `sequenceCompleted` as far as the stream encoder and the result go -/
+theorem sequenceCompletedV_eq {σ : Type} (V : MsgValidator σ) (F : Faults) (c : StreamCfg) (o : Opts) (h : Hdr) (s : Stream) (vs : σ) :
+    (s.sequenceCompletedV V F c o h vs).1 = (s.sequenceCompleted F c o h).1 ∧
+    (s.sequenceCompletedV V F c o h vs).2.2 = (if (s.sequenceCompleted F c o h).2 then Res.ok else Res.err) := by
+  unfold Stream.sequenceCompletedV
+  by_cases h1 : (encodeCRC F s.e).2 = true
+  · simp only [h1, Bool.not_true, Bool.false_eq_true, if_false]
+    by_cases h2 : (updateFileHeader F (encodeCRC F s.e).1 h s.hdrDs).2.2 = true
+    · simp only [h2, Bool.not_true, Bool.false_eq_true, if_false]
+      exact ⟨trivial, trivial⟩
+    · have h2' : (updateFileHeader F (encodeCRC F s.e).1 h s.hdrDs).2.2 = false := by simpa using h2
+      unfold Stream.sequenceCompleted
+      simp [h1, h2']
+  · have h1' : (encodeCRC F s.e).2 = false := by simpa using h1
+    unfold Stream.sequenceCompleted
+    simp [h1']
+
 end Fit.Writer
